@@ -281,6 +281,24 @@ def extras(viols, outcomes, samples):
                                     got=(code_class(o.code) if o.kind == "raise" else "accepted")))
                 outcomes["recv-delta-boundary"] = outcomes.get("recv-delta-boundary", 0) + 1
                 samples.append({"state": name, "route": "recv", "setting": [4, v], "expected": "accepted" if okay else "FLOW_CONTROL_ERROR"})
+    # the delta of a change is taken from the value in force, also when that value is 0: the stream window is raised by
+    # 65535 (WINDOW_UPDATE), INITIAL_WINDOW_SIZE goes to 0 (window 65535 again), then to the value that lands on / one past 2^31-1
+    for name, client, blob, win in _bases():
+        if not name.startswith("open-"):
+            continue
+        for v, okay in ((2 ** 31 - 1 - 65535, True), (2 ** 31 - 65535, False)):
+            conn = pickle.loads(blob)
+            pre = [H.recv(conn, wire.window_update(1, 65535).serialize()), H.recv(conn, wire.settings([(4, 0)]).serialize())]
+            o = H.recv(conn, wire.settings([(4, v)]).serialize())
+            n += 1
+            if any(x.kind != "ok" for x in pre) or (okay and o.kind != "ok"):
+                viols.append(_v("valid-setting-rejected", "%s: WINDOW_UPDATE(1, 65535), IWS=0, IWS=%d (lands exactly on 2^31-1) -> %s" % (name, v, o.brief()),
+                                route="recv-delta-from-zero", id="4", got=o.exc_name))
+            if not okay and not (o.kind == "raise" and o.is_proto and int(o.code) == FCE):
+                viols.append(_v("invalid-setting-wrong-outcome", "%s: WINDOW_UPDATE(1, 65535), IWS=0, IWS=%d overflows the stream window but -> %s" % (
+                    name, v, o.brief()), route="recv-delta-from-zero", id="4", expected="FLOW_CONTROL_ERROR",
+                    got=(code_class(o.code) if o.kind == "raise" else "accepted")))
+            outcomes["recv-delta-from-zero"] = outcomes.get("recv-delta-from-zero", 0) + 1
     # a locally requested INITIAL_WINDOW_SIZE whose acknowledgement lands a RECEIVE window exactly on / one past 2^31-1
     for client in (False, True):
         h = H.Solo(client)
